@@ -233,9 +233,12 @@ pub fn run_c09_pure(ctx: &mut Ctx) {
         clocks_json,
     );
     // exhaustive grid around the margin
-    let incs = [0i128, 1, 50, 1000];
-    let mtgs = [None, Some(1u32), Some(30u32)];
-    let grid = 401u64 * 4 * 3 * 2;
+    // exhaustive grid around the margin: clock 0..=Cmax x 6 increments x 8 moves-to-go settings x both
+    // colours (Cmax 1000 quick, 20000 thorough)
+    let incs = [0i128, 1, 50, 125, 1000, 60_000];
+    let mtgs = [None, Some(1u32), Some(2u32), Some(3u32), Some(10u32), Some(30u32), Some(40u32), Some(200u32)];
+    let cmax: u64 = t.pick(1_000, 20_000);
+    let grid = (cmax + 1) * 6 * 8 * 2;
     run_enum(
         ctx,
         "time_slice_grid_exhaustive",
@@ -243,9 +246,9 @@ pub fn run_c09_pure(ctx: &mut Ctx) {
         true,
         |i, st| {
             let white = i % 2 == 0;
-            let mtg = mtgs[(i / 2 % 3) as usize];
-            let inc = incs[(i / 6 % 4) as usize];
-            let clock = (i / 24) as i128;
+            let mtg = mtgs[(i / 2 % 8) as usize];
+            let inc = incs[(i / 16 % 6) as usize];
+            let clock = (i / 96) as i128;
             let c = if white { Clocks { wtime: clock, btime: 777_777, winc: inc, binc: 5, mtg, white, other_time: 1, other_inc: 99_999 } } else { Clocks { wtime: 777_777, btime: clock, winc: 5, binc: inc, mtg, white, other_time: 1, other_inc: 99_999 } };
             match c09_pure(&c, st)? {
                 Verdict::Ok => Ok(()),
